@@ -115,7 +115,7 @@ def main():
             props = sorted(json.loads(l)['id'] for l in open(os.path.join(V, 'properties.jsonl')))
             for p in props:
                 rc, cout = sh('%s/bin/lemolint check %s --repo %s --verif %s --no-evidence' % (V, p, W, V))
-                keys = re.findall(r'^(?:VIOLATED|UNDECIDED) (\S+):', cout, re.M)
+                keys = re.findall(r'^(?:VIOLATED|UNDECIDED) (.+?): [a-z-]+ — ', cout, re.M)
                 if rc == 1 and keys:
                     caught[p] = keys
                 elif rc not in (0, 1) and 'no rules for' not in cout:
